@@ -1,31 +1,55 @@
 import FcpptModel.Prelude.Proto
 import FcpptModel.Spec.C13
 /-!
-Driver for C13.  `T` is `i` (`int`) or `u` (`unsigned`), `n` ∈ {1,2,3}, vectors are `x,y,z`.
+Driver for C13.  `T` is `i` (`int`), `u` (`unsigned`), `l` (`long`, 64 bit), `m` (`unsigned long`, 64 bit);
+`n` ∈ {0,…,4}; vectors are `x,y,z` (`-` for the empty vector of n = 0).
 
 * `pair T n amin amax bmin bmax lo hi` — observations on the two boxes A, B: `intersects`, `contains` both ways,
       `intersection`, `extend_bounding_box(A,B)`, `== != <` both ways, `distance` both ways, and a digest over all lattice points
       p ∈ [lo,hi]^n of (p∈A, p∈B, p∈A∩B, p∈bbox)
 * `pt T n amin amax bmin bmax p`       — the four memberships of one point
 * `pairs T n amin amax lo hi clo chi`  — digest of the `pair` lines for every box B with both corners in [clo,chi]^n
+* `cmp T n amin amax bmin bmax`        — only the functions without arithmetic: `intersects`, `contains` both ways, `intersection`,
+      `extend_bounding_box`, `interval`s (usable at the ends of the type's range)
 * `unary T n min max lo hi`            — `size pos max left… corner_points center null`, constructor / `init_max` / `init_dim`
-      round trips, digest over v ∈ [lo,hi]^n of `shrink`/`stretch_absolute`, digest over p ∈ [lo,hi]^n of
-      `extend_bounding_box(box, p)` and `contains_point`
+      round trips, self comparisons, `interval`s, `operator<<`, calls whose arguments alias (same box twice, the box's own corner as
+      the vector argument), `structure_cast` to the three other coordinate types, digest over v ∈ [lo,hi]^n of
+      `shrink`/`stretch_absolute`, digest over p ∈ [lo,hi]^n of `extend_bounding_box(box, p)` and `contains_point`, digest over the
+      factor lattice of `stretch_relative`
 * `shr T n min max v`                  — `shrink`, `stretch_absolute`, and `stretch_absolute(shrink(b,v),v)`
-* `extp T n min max p`                 — `extend_bounding_box(box, p)`, `contains_point(box, p)`
+* `extp T n min max p`                 — `extend_bounding_box(box, p)`, `contains_point(box, p)` (p as a static vector and as a row view of a matrix)
+* `strel T n min max f`                — `stretch_relative(box, f)`
+* `prog T n amin amax bmin bmax v P`   — run the statement sequence P (`,`-separated codes of `Instr`, `-` = empty) on the
+      objects A, B, V; print the final objects and observations
+* `progs T n amin amax bmin bmax v k`  — digest of the `prog` lines of all statement sequences of length k
+* `foldp T n min max p1 … pk`          — `b = extend_bounding_box(b, p_j)` for j = 1…k
+* `foldb T n amin amax b1min b1max …`  — `a = extend_bounding_box(a, b_j)` and `a = intersection(a, b_j)` over the list
 * `idist T a1 a2 b1 b2`                — `interval_distance((a1,a2),(b1,b2))`
 -/
 namespace Fcppt.C13.Drv
 open Fcppt.Proto
 
+def Ty.long : Ty := ⟨true, 64⟩
+def Ty.ulong : Ty := ⟨false, 64⟩
+
 def parseTy : String → Option Ty
   | "i" => some Ty.int
   | "u" => some Ty.uint
+  | "l" => some Ty.long
+  | "m" => some Ty.ulong
   | _ => none
+
+/-- destination types of the three `structure_cast`s printed by `unary`, in print order -/
+def castTargets : String → List Ty
+  | "i" => [Ty.uint, Ty.long, Ty.ulong]
+  | "u" => [Ty.int, Ty.ulong, Ty.long]
+  | "l" => [Ty.ulong, Ty.int, Ty.uint]
+  | "m" => [Ty.long, Ty.uint, Ty.int]
+  | _ => []
 
 def parseDim (s : String) : Option Nat :=
   match s.toNat? with
-  | some n => if 1 ≤ n ∧ n ≤ 3 then some n else none
+  | some n => if n ≤ 4 then some n else none
   | none => none
 
 def inTy (t : Ty) (x : Int) : Bool := decide (t.Rep x)
@@ -39,11 +63,17 @@ def mkVec (n : Nat) (l : List Int) : Option (Vec n) :=
   if h : l.length = n then some ⟨l.toArray, by simp [h]⟩ else none
 
 def parseVec (t : Ty) (n : Nat) (s : String) : Option (Vec n) :=
-  match parseIntList s with
-  | some l => if l.all (inTy t) then mkVec n l else none
-  | none => none
+  if s = "-" then mkVec n []
+  else match parseIntList s with
+    | some l => if l.all (inTy t) && l.length != 0 then mkVec n l else none
+    | none => none
 
-def showVec {n : Nat} (v : Vec n) : String := intList v.toList
+def parseBox (t : Ty) (n : Nat) (mn mx : String) : Option (Box n) := do
+  let a ← parseVec t n mn
+  let b ← parseVec t n mx
+  pure ⟨a, b⟩
+
+def showVec {n : Nat} (v : Vec n) : String := if n = 0 then "-" else intList v.toList
 def showBox {n : Nat} (b : Box n) : String := showVec b.min ++ "/" ++ showVec b.max
 def showM {α : Type} (f : α → String) : M α → String
   | .ok a => f a
@@ -92,20 +122,41 @@ def pairsDigest (t : Ty) {n : Nat} (a : Box n) (lo hi clo chi : Int) : String :=
   let h := cs.foldl (fun h bmin => cs.foldl (fun h bmax => fnv h (pairLine t a ⟨bmin, bmax⟩ lat)) h) fnvInit
   "D " ++ hex64 h
 
+def intervals {n : Nat} (b : Box n) : String :=
+  if n = 0 then "-" else
+  ";".intercalate ((List.finRange n).map fun i => let iv := interval b i; s!"{iv.1}:{iv.2}")
+
+def cmpLine (t : Ty) {n : Nat} (a b : Box n) : String :=
+  s!"int={b01 (intersects a b)}{b01 (intersects b a)} cont={b01 (contains a b)}{b01 (contains b a)} " ++
+  s!"isect={showM showBox (intersection t a b)} ext={showBox (extendBox a b)} iv={intervals a}|{intervals b}"
+
 def shrLine (t : Ty) {n : Nat} (b : Box n) (v : Vec n) : String :=
   let s := shrink t b v
   let back := match s with | .ok sb => stretchAbsolute t sb v | .error e => .error e
   s!"shrink={showM showBox s} stretch={showM showBox (stretchAbsolute t b v)} back={showM showBox back}"
 
 def extpLine {n : Nat} (b : Box n) (p : Vec n) : String :=
-  s!"ext={showBox (extendPoint b p)} in={b01 (containsPoint b p)}"
+  s!"ext={showBox (extendPoint b p)} in={b01 (containsPoint b p)}{b01 (containsPoint b p)}"
+
+def strelLine (t : Ty) {n : Nat} (b : Box n) (f : Vec n) : String :=
+  s!"strel={showM showBox (stretchRelative t b f)}"
 
 def sides {n : Nat} (b : Box n) : String :=
   (if h : 0 < n then s!" l={left b h} r={right b h}" else "") ++
   (if h : 1 < n then s!" t={top b h} b={bottom b h}" else "") ++
   (if h : 2 < n then s!" f={front b h} k={back b h}" else "")
 
-def unaryLine (t : Ty) {n : Nat} (b : Box n) (lo hi : Int) : String :=
+/-- the factor lattice of `stretch_relative` inside `unary` -/
+def factorRange (t : Ty) : Int × Int := if t.signed then (-2, 2) else (0, 3)
+
+/-- calls whose arguments are the same object / a part of the first argument -/
+def aliasPart (t : Ty) {n : Nat} (b : Box n) : String :=
+  s!"{showM showBox (intersection t b b)}|{showBox (extendBox b b)}|{showM showVec (distance t b b)}|" ++
+  s!"{showBox (extendPoint b b.min)}|{showBox (extendPoint b b.max)}|{b01 (containsPoint b b.min)}{b01 (containsPoint b b.max)}|" ++
+  s!"{showM showBox (shrink t b b.min)}|{showM showBox (shrink t b b.max)}|" ++
+  s!"{showM showBox (stretchAbsolute t b b.min)}|{showM showBox (stretchAbsolute t b b.max)}"
+
+def unaryLine (tl : String) (t : Ty) {n : Nat} (b : Box n) (lo hi : Int) : String :=
   let lat := cube lo hi n
   let sz := size t b
   -- round trips: (pos,size) constructor, init_max, init_dim reproduce the box
@@ -113,57 +164,118 @@ def unaryLine (t : Ty) {n : Nat} (b : Box n) (lo hi : Int) : String :=
   let rt2 : Box n := initMax fun i => (b.min[i], b.max[i])
   let rt3 := match sz with | .ok s => initDim t (n := n) (fun i => (b.min[i], s[i])) | .error e => .error e
   let hs := lat.foldl (fun h v => mixMBox (mixMBox h (shrink t b v)) (stretchAbsolute t b v)) fnvInit
-  let hp := lat.foldl (fun h p => mix (mixBox h (extendPoint b p)) (bit (containsPoint b p) 1)) fnvInit
-  s!"size={showM showVec sz} pos={showVec b.min} max={showVec b.max}{sides b} corners={showM (fun l => ";".intercalate (l.map showVec)) (cornerPoints t b)} " ++
+  -- contains_point twice: static vector and matrix-row view
+  let hp := lat.foldl (fun h p => mix (mixBox h (extendPoint b p)) (bit (containsPoint b p) 3)) fnvInit
+  let (flo, fhi) := factorRange t
+  let hr := (cube flo fhi n).foldl (fun h f => mixMBox h (stretchRelative t b f)) fnvInit
+  let corners := if n = 0 then "n/a" else showM (fun l => ";".intercalate (l.map showVec)) (cornerPoints t b)
+  let casts := "|".intercalate ((castTargets tl).map fun d => showM showBox (structureCast t d b))
+  s!"size={showM showVec sz} pos={showVec b.min} max={showVec b.max}{sides b} corners={corners} " ++
   s!"center={showM showVec (center t b)} null={showM showBox (null t n)} rt={showM showBox rt1}|{showBox rt2}|{showM showBox rt3} " ++
-  s!"self={showM b01 (eq t b b)}{showM b01 (ne t b b)}{showM b01 (lt t b b)}{b01 (contains b b)}{b01 (intersects b b)} sh={hex64 hs} xp={hex64 hp}"
+  s!"self={showM b01 (eq t b b)}{showM b01 (ne t b b)}{showM b01 (lt t b b)}{b01 (contains b b)}{b01 (intersects b b)} " ++
+  s!"calls={natList (initTrace n)}|{natList (initTrace n)} iv={intervals b} out={showM id (output t b)} alias={aliasPart t b} cast={casts} " ++
+  s!"sh={hex64 hs} xp={hex64 hp} sr={hex64 hr}"
+
+def Instr.ofCode (s : String) : Option Instr := Instr.all.find? (fun i => i.code == s)
+
+def parseProg (s : String) : Option (List Instr) :=
+  if s = "-" then some [] else (s.splitOn ",").mapM Instr.ofCode
+
+def showProg (p : List Instr) : String := if p.isEmpty then "-" else ",".intercalate (p.map Instr.code)
+
+def progLine (t : Ty) {n : Nat} (s : St n) (p : List Instr) : String :=
+  match run t s p with
+  | .error e => e.name
+  | .ok r =>
+    s!"A={showBox r.a} B={showBox r.b} V={showVec r.v} size={showM showVec (size t r.a)} " ++
+    s!"obs={b01 (containsPoint r.a r.v)}{b01 (intersects r.a r.b)}{b01 (contains r.a r.b)}{showM b01 (eq t r.a r.b)}{showM b01 (lt t r.a r.b)}"
+
+/-- all statement sequences of length k, first statement outermost, in the order of `Instr.all` -/
+def allProgs : Nat → List (List Instr)
+  | 0 => [[]]
+  | k + 1 => Instr.all.flatMap fun i => (allProgs k).map fun r => i :: r
+
+def progsDigest (t : Ty) {n : Nat} (s : St n) (k : Nat) : String :=
+  "D " ++ hex64 ((allProgs k).foldl (fun h p => fnv h (progLine t s p)) fnvInit)
+
+def foldpLine {n : Nat} (b : Box n) (ps : List (Vec n)) : String :=
+  let r := foldPoints b ps
+  s!"box={showBox r} in={"".intercalate (ps.map fun p => b01 (containsPoint r p))}"
+
+def pairUp : List String → Option (List (String × String))
+  | [] => some []
+  | a :: b :: r => (pairUp r).map ((a, b) :: ·)
+  | [_] => none
+
+def foldbLine (t : Ty) {n : Nat} (a : Box n) (bs : List (Box n)) : String :=
+  s!"ext={showBox (foldBoxes a bs)} isect={showM showBox (foldIntersection t a bs)}"
+
+def handleN (op tl : String) (t : Ty) (n : Nat) (rest : List String) : Option String :=
+  match op, rest with
+  | "pair", [amin, amax, bmin, bmax, lo, hi] => do
+    let a ← parseBox t n amin amax
+    let b ← parseBox t n bmin bmax
+    let lo ← parseScalar t lo
+    let hi ← parseScalar t hi
+    pure (pairLine t a b (cube lo hi n))
+  | "pt", [amin, amax, bmin, bmax, p] => do
+    let a ← parseBox t n amin amax
+    let b ← parseBox t n bmin bmax
+    let p ← parseVec t n p
+    pure (ptLine t a b p)
+  | "pairs", [amin, amax, lo, hi, clo, chi] => do
+    let a ← parseBox t n amin amax
+    let lo ← parseScalar t lo
+    let hi ← parseScalar t hi
+    let clo ← parseScalar t clo
+    let chi ← parseScalar t chi
+    pure (pairsDigest t a lo hi clo chi)
+  | "cmp", [amin, amax, bmin, bmax] => do
+    let a ← parseBox t n amin amax
+    let b ← parseBox t n bmin bmax
+    pure (cmpLine t a b)
+  | "unary", [mn, mx, lo, hi] => do
+    let b ← parseBox t n mn mx
+    let lo ← parseScalar t lo
+    let hi ← parseScalar t hi
+    pure (unaryLine tl t b lo hi)
+  | "shr", [mn, mx, v] => do
+    let b ← parseBox t n mn mx
+    let v ← parseVec t n v
+    pure (shrLine t b v)
+  | "extp", [mn, mx, p] => do
+    let b ← parseBox t n mn mx
+    let p ← parseVec t n p
+    pure (extpLine b p)
+  | "strel", [mn, mx, f] => do
+    let b ← parseBox t n mn mx
+    let f ← parseVec t n f
+    pure (strelLine t b f)
+  | "prog", [amin, amax, bmin, bmax, v, p] => do
+    let a ← parseBox t n amin amax
+    let b ← parseBox t n bmin bmax
+    let v ← parseVec t n v
+    let p ← parseProg p
+    pure (progLine t ⟨a, b, v⟩ p)
+  | "progs", [amin, amax, bmin, bmax, v, k] => do
+    let a ← parseBox t n amin amax
+    let b ← parseBox t n bmin bmax
+    let v ← parseVec t n v
+    let k ← k.toNat?
+    if k ≤ 3 then pure (progsDigest t ⟨a, b, v⟩ k) else none
+  | "foldp", mn :: mx :: ps => do
+    let b ← parseBox t n mn mx
+    let ps ← ps.mapM (parseVec t n)
+    pure (foldpLine b ps)
+  | "foldb", amin :: amax :: bs => do
+    let a ← parseBox t n amin amax
+    let bs ← pairUp bs
+    let bs ← bs.mapM fun (x, y) => parseBox t n x y
+    pure (foldbLine t a bs)
+  | _, _ => none
 
 def handle (toks : List String) : String :=
   match toks with
-  | ["pair", t, n, amin, amax, bmin, bmax, lo, hi] =>
-    match parseTy t, parseDim n, lo.toInt?, hi.toInt? with
-    | some t, some n, some lo, some hi =>
-      match parseVec t n amin, parseVec t n amax, parseVec t n bmin, parseVec t n bmax with
-      | some amin, some amax, some bmin, some bmax =>
-        if inTy t lo && inTy t hi then pairLine t ⟨amin, amax⟩ ⟨bmin, bmax⟩ (cube lo hi n) else "bad-op"
-      | _, _, _, _ => "bad-op"
-    | _, _, _, _ => "bad-op"
-  | ["pt", t, n, amin, amax, bmin, bmax, p] =>
-    match parseTy t, parseDim n with
-    | some t, some n =>
-      match parseVec t n amin, parseVec t n amax, parseVec t n bmin, parseVec t n bmax, parseVec t n p with
-      | some amin, some amax, some bmin, some bmax, some p => ptLine t ⟨amin, amax⟩ ⟨bmin, bmax⟩ p
-      | _, _, _, _, _ => "bad-op"
-    | _, _ => "bad-op"
-  | ["pairs", t, n, amin, amax, lo, hi, clo, chi] =>
-    match parseTy t, parseDim n, lo.toInt?, hi.toInt?, clo.toInt?, chi.toInt? with
-    | some t, some n, some lo, some hi, some clo, some chi =>
-      match parseVec t n amin, parseVec t n amax with
-      | some amin, some amax =>
-        if inTy t lo && inTy t hi && inTy t clo && inTy t chi then pairsDigest t ⟨amin, amax⟩ lo hi clo chi else "bad-op"
-      | _, _ => "bad-op"
-    | _, _, _, _, _, _ => "bad-op"
-  | ["unary", t, n, mn, mx, lo, hi] =>
-    match parseTy t, parseDim n, lo.toInt?, hi.toInt? with
-    | some t, some n, some lo, some hi =>
-      match parseVec t n mn, parseVec t n mx with
-      | some mn, some mx => if inTy t lo && inTy t hi then unaryLine t ⟨mn, mx⟩ lo hi else "bad-op"
-      | _, _ => "bad-op"
-    | _, _, _, _ => "bad-op"
-  | ["shr", t, n, mn, mx, v] =>
-    match parseTy t, parseDim n with
-    | some t, some n =>
-      match parseVec t n mn, parseVec t n mx, parseVec t n v with
-      | some mn, some mx, some v => shrLine t ⟨mn, mx⟩ v
-      | _, _, _ => "bad-op"
-    | _, _ => "bad-op"
-  | ["extp", t, n, mn, mx, p] =>
-    match parseTy t, parseDim n with
-    | some t, some n =>
-      match parseVec t n mn, parseVec t n mx, parseVec t n p with
-      | some mn, some mx, some p => extpLine (⟨mn, mx⟩ : Box n) p
-      | _, _, _ => "bad-op"
-    | _, _ => "bad-op"
   | ["idist", t, a1, a2, b1, b2] =>
     match parseTy t with
     | some t =>
@@ -171,6 +283,10 @@ def handle (toks : List String) : String :=
       | some a1, some a2, some b1, some b2 => showM toString (intervalDistance t (a1, a2) (b1, b2))
       | _, _, _, _ => "bad-op"
     | none => "bad-op"
+  | op :: tl :: nl :: rest =>
+    match parseTy tl, parseDim nl with
+    | some t, some n => (handleN op tl t n rest).getD "bad-op"
+    | _, _ => "bad-op"
   | _ => "bad-op"
 
 def main : IO Unit := Proto.run handle
